@@ -29,7 +29,7 @@ class C02(ProgramProperty):
                 recs = recs + [rec(bad, "http://k2.example/" + rng.choice(["", "x_"]))]
         ps = gen.all_prefixes(recs)
         canon = {uncps(r["p"]) for r in recs}
-        steps = [init_step(0, recs, delim), q(0, "records"), q(0, "delimiter")]
+        steps = []
         pairs = []
         nontrivial = False
         for _ in range(8):
@@ -61,7 +61,9 @@ class C02(ProgramProperty):
                                      "synonym" if p in ps else "unknown"))
             if delim in i:
                 tags.append("identifier-contains-delimiter")
-        return {"steps": steps, "pairs": pairs, "delim": delim, "nontrivial": nontrivial, "tags": tags}
+        steps, how = gen.build_steps(rng, recs, delim, steps)
+        _build_tag = "build=" + how
+        return {"steps": steps, "pairs": pairs, "delim": delim, "nontrivial": nontrivial, "tags": tags + [_build_tag]}
 
     def laws(self, case, impl):
         g = Getter(case, impl)
